@@ -52,6 +52,10 @@ FOREIGN_CORE = ('<?xml version="1.0" encoding="UTF-8" standalone="yes"?>\n<cp:co
                 '  <dc:description xml:lang="en-GB"/>\n  <cp:lastModifiedBy>Bob</cp:lastModifiedBy>\n'
                 '</cp:coreProperties>' % (CP, DC, DCT, XSI)).encode()
 
+# ... and as a producer that writes no dates may write it: the root declares only the namespaces it uses (no dcterms, no xsi)
+SPARSE_CORE = ('<?xml version="1.0" encoding="UTF-8" standalone="yes"?>\n<cp:coreProperties xmlns:cp="%s" xmlns:dc="%s">'
+               '<dc:title>Plain</dc:title><dc:creator>Carol</dc:creator><cp:revision>2</cp:revision></cp:coreProperties>' % (CP, DC)).encode()
+
 # --------------------------------------------------------------------------------------------
 # text: class sequences <-> concrete strings.  The representative of class c at absolute position i is REPS[c][i % len];
 # a string projects to its class runs only if it is exactly the concretisation of those runs (else opaque class 9), so
@@ -206,6 +210,8 @@ def init_bytes(kind: str) -> bytes:
             _INIT[kind] = tpl
         elif kind == "empty":
             _INIT[kind] = rewrite_zip(tpl, lambda n, b: EMPTY_CORE if n == CORE_NAME else b)
+        elif kind == "sparse":
+            _INIT[kind] = rewrite_zip(tpl, lambda n, b: SPARSE_CORE if n == CORE_NAME else b)
         elif kind == "foreign":
             _INIT[kind] = rewrite_zip(tpl, lambda n, b: FOREIGN_CORE if n == CORE_NAME else b)
         elif kind == "absent":
